@@ -5,6 +5,7 @@ import (
 	"fmt"
 	"sort"
 	"strings"
+	"sync"
 
 	"mltwist/internal/riscv"
 	"mltwist/pkg/model"
@@ -24,6 +25,9 @@ type c01Case struct {
 	VA   uint64  `json:"rs1_value"`
 	VB   uint64  `json:"rs2_value"`
 	Seed uint64  `json:"seed"`
+	// Prime: when set, a FRESH parser first lifts the same word at this address and is then
+	// used for the case itself (lifting must not depend on what a parser lifted before).
+	Prime *uint64 `json:"prime_pc,omitempty"`
 }
 
 func (c c01Case) pre() *rvx.Pre {
@@ -42,13 +46,20 @@ func (c c01Case) pre() *rvx.Pre {
 	return p
 }
 
-var parsers = map[rvx.Cfg]riscv.Parser{}
+// A parser is never used by two goroutines at once (the tool is sequential and a
+// parser may keep state): parser sets are handed out by a pool, one per goroutine at a time.
+type parserSet map[rvx.Cfg]riscv.Parser
 
-func init() {
+var parserPool = sync.Pool{New: func() any {
+	ps := parserSet{}
 	for _, c := range rvx.AllCfgs() {
-		parsers[c] = rvx.Parser(c)
+		ps[c] = rvx.Parser(c)
 	}
-}
+	return ps
+}}
+
+func getParsers() parserSet   { return parserPool.Get().(parserSet) }
+func putParsers(ps parserSet) { parserPool.Put(ps) }
 
 // c01Run returns (fail, inDomain).
 func c01Run(c c01Case) (*eng.Fail, bool) {
@@ -57,10 +68,21 @@ func c01Run(c c01Case) (*eng.Fail, bool) {
 		return nil, false
 	}
 	c.Name, c.Hex = name, fmt.Sprintf("%08x", c.Word)
-	ps := parsers[c.Cfg]
+	var ps riscv.Parser
+	if c.Prime != nil {
+		ps = rvx.Parser(c.Cfg)
+		eng.Catch(func() { ps.Parse(model.Addr(*c.Prime), rvx.WordBytes(c.Word)) })
+	} else {
+		pset := getParsers()
+		defer putParsers(pset)
+		ps = pset[c.Cfg]
+	}
 	var in model.Instruction
 	var err error
 	tag := fmt.Sprintf("rv%d %s", c.Cfg.XLEN, name)
+	if c.Prime != nil {
+		tag += " (after lifting the same word elsewhere)"
+	}
 	p, stack := eng.Catch(func() { in, err = ps.Parse(model.Addr(c.PC), rvx.WordBytes(c.Word)) })
 	if p != nil {
 		return &eng.Fail{Sig: tag + " lift-panic " + eng.PanicSite(stack), What: fmt.Sprintf("%s: lifting %s (%08x) at %#x panics: %v", c.Cfg, name, c.Word, c.PC, p), Case: c}, true
@@ -209,7 +231,7 @@ func buildWords(row rvref.Row, rd, rs1, rs2 uint32, all bool) []uint32 {
 
 func init() {
 	checks["C01"] = eng.Check{
-		Rule: "for RV32 and RV64 (all of I, M, A): (a) semantics: every mnemonic x distinct registers x immediate alphabets (22 twelve-bit, 14 branch, 15 jump, 8 upper immediates, every shift amount, 10 CSR numbers) x operand values V64^2 (26 boundary values; thorough ~190) x 2 addresses x 2 memory seeds; (b) aliasing: every mnemonic x all 4^3 register choices from {x0,x1,x2,x31} x 4^2 values; (c) every register number 0..31 in each field, and identical effects in all 4 extension subsets; (d) all 4096 I/S immediates, all 4096 branch offsets, all 4096 CSR numbers per mnemonic x 3 values (thorough: all 2^20 U and J immediates); (e) pc-relative instructions at 9 addresses up to the top of the address space. Lifted effects applied by the independent IR evaluator to the pre-state and compared with the reference interpreter on x1..x31, touched CSRs, written memory bytes and pc; keys must be x1..x31/csr0..csr4095/ip. Non-trivial = executed case inside the domain (no access straddling 2^XLEN).",
+		Rule: "for RV32 and RV64 (all of I, M, A): (a) semantics: every mnemonic x distinct registers x immediate alphabets (22 twelve-bit, 14 branch, 15 jump, 8 upper immediates, every shift amount, 10 CSR numbers) x operand values V64^2 (26 boundary values; thorough ~190) x 2 addresses x 2 memory seeds; (b) aliasing: every mnemonic x all 4^3 register choices from {x0,x1,x2,x31} x 4^2 values; (c) every register number 0..31 in each field, and identical effects in all 4 extension subsets; (d) all 4096 I/S immediates, all 4096 branch offsets, all 4096 CSR numbers per mnemonic x 3 values (thorough: all 2^20 U and J immediates); (e) pc-relative instructions at 9 addresses up to the top of the address space; (f) history independence: for every mnemonic a FRESH parser first lifts the same word at another address and is then used for the case. A parser is never shared between goroutines. Lifted effects applied by the independent IR evaluator to the pre-state and compared with the reference interpreter on x1..x31, touched CSRs, written memory bytes and pc; keys must be x1..x31/csr0..csr4095/ip. Non-trivial = executed case inside the domain (no access straddling 2^XLEN).",
 		Assumptions: []string{
 			"register/memory values are boundary alphabets, not all 2^64 values (the gadgets are covered for all width-1 operands by C11)",
 			"memory accesses straddling 2^XLEN are excluded",
@@ -304,18 +326,20 @@ func init() {
 						for _, w := range ws {
 							do(c01Case{Cfg: j.cfg, Word: w, PC: 0x3000, VA: 0x1234567890abcdef, VB: 0xfedcba0987654321, Seed: 4})
 							// same effects in every configuration which has the instruction
-							ref, e0 := parsers[j.cfg].Parse(0x3000, rvx.WordBytes(w))
+							pset := getParsers()
+							ref, e0 := pset[j.cfg].Parse(0x3000, rvx.WordBytes(w))
 							for _, oc := range rvx.AllCfgs() {
 								if oc.XLEN != j.cfg.XLEN || rvref.DecodeFast(w, oc.Ref()) == "" {
 									continue
 								}
-								o, e1 := parsers[oc].Parse(0x3000, rvx.WordBytes(w))
+								o, e1 := pset[oc].Parse(0x3000, rvx.WordBytes(w))
 								r.Eval(1)
 								if (e0 == nil) != (e1 == nil) || e0 == nil && showEffects(ref) != showEffects(o) {
 									r.Report(&eng.Fail{Sig: fmt.Sprintf("rv%d %s extension-subset-dependent", j.cfg.XLEN, j.row.Name),
 										What: fmt.Sprintf("%08x lifts differently in %s and %s", w, j.cfg, oc), Case: c01Case{Cfg: oc, Word: w, PC: 0x3000}})
 								}
 							}
+							putParsers(pset)
 						}
 					}
 				}
@@ -360,6 +384,20 @@ func init() {
 						for _, v := range [][2]uint64{{0, 0}, {1, 2}, {2, 1}, {^uint64(0), 0}, {0x1000, 0x1000}} {
 							do(c01Case{Cfg: j.cfg, Word: w, PC: pc, VA: v[0], VB: v[1], Seed: 6})
 						}
+					}
+				}
+			})
+			// (f) history independence: a fresh parser lifts the word at another address first
+			r.Par(len(jobs), func(i int) {
+				j := jobs[i]
+				ws := buildWords(j.row, 3, 1, 2, false)
+				if len(ws) > 6 {
+					ws = []uint32{ws[0], ws[1], ws[len(ws)/2], ws[len(ws)-2], ws[len(ws)-1]}
+				}
+				for _, w := range ws {
+					for _, pp := range [][2]uint64{{0x1000, 0x2000}, {0x7ffffff0, 0x1000}} {
+						prime := pp[0]
+						do(c01Case{Cfg: j.cfg, Word: w, PC: pp[1], VA: 0x8000000000000123, VB: 0x77, Seed: 7, Prime: &prime})
 					}
 				}
 			})
